@@ -3,4 +3,5 @@ From Coq Require Import ExtrOcamlBasic.
 Extraction Language OCaml.
 Extraction "c08_model" force_types hinit step run cal_cachelines drained_fit in_known_class
   hr h_alloc h_fetched wcur rcur crem n_cl
-  mo_w_load_r e_op LExit OLoad is_acq.
+  cinit cstep mo_sufficient c_committed c_unread c_delivered c_uncov c_overlap c_w c_r c_wdone
+  e_op LExit OLoad is_acq.
